@@ -9,6 +9,16 @@ NOTE = ("Trusted base: clang 14 front end + clang::CFG, tools/xzfacts.cc, sa/*.p
         "of the property is NOT decided (see DESIGN.md section 4).")
 
 CLAIMED = {
+ "C14": dict(
+  text="Every entry of the CRC32/CRC64 slice tables (3072 values), the CLMUL folding and Barrett constants of both widths, "
+       "the shuffle masks, the SHA-256 round constants and initial state, and check_sizes[] is compared with a value computed "
+       "independently from the polynomial / FIPS 180-4 definitions (this is the only look the table-driven CRC path gets on a "
+       "CLMUL machine); the SHA-256 Sigma/sigma macro expansions (all 96+32 sites) are evaluated as GF(2)-linear maps on the 32 "
+       "basis vectors, Ch/Maj by truth table; schedule indices, 16+3x16 round structure, big-endian load and length; dispatch "
+       "wiring of CRC resolvers and check.c. The CLMUL data path and the slice-by-N loops as functions of all inputs are NOT "
+       "decided.",
+  technique="table comparison against independently computed definitions; GF(2)-linear and truth-table evaluation of macro-expanded expression trees",
+  ref="4/C14"),
  "C19": dict(
   text="Structural clauses of xz naming/overwrite/metadata safety: the compress and decompress suffix tables agree (every "
        "suffix added or refused when compressing is removed when decompressing, defaults map to the bare name, .txz/.tlz to "
